@@ -6,6 +6,12 @@ NOTE = ("Trusted base: Python evaluation order and C3 MRO; documented semantics 
         "not the run-time behaviour (DESIGN.md section 7/8).")
 
 CLAIMS = {
+    "C04": ("Per concrete estimator class (C3 MRO, 156 classes): the constructor chain stores every argument unchanged "
+            "(abstract interpretation through super().__init__ chains), no method reachable from fit/apply-type methods "
+            "overwrites a constructor parameter, fit sets the fitted flag on every path, returns self and cannot reject "
+            "after setting it, every resolved (class, apply-method) pair passes the not-fitted guard on every path to a "
+            "normal return, and the composite get/set parameter plumbing keeps its documented order and separator. "
+            "Covers the full class x method product the runtime suite cannot import.", "3/C04"),
     "C01": ("Window/cutoff/test index arithmetic of the four splitters and _split_by_fh as affine identities over "
             "symbolic n, fh, window, step; feasibility guards entail in-bounds and are tight; reported cutoffs "
             "equal yielded cutoffs; unshuffled partition. All configurations of the quantifier are covered "
